@@ -51,7 +51,7 @@ Cases17 == <<Arith(1, "full", "tiny"), BaseSum(2, 1), BaseSum(2, 2), BaseSum(2, 
              BaseSum(3, 1), BaseSum(3, 2), BaseSum(4, 1), BaseSum(4, 2), Constant(1), Constant(2),
              Expo(1), Expo(2), Expo(3), Expo(4), Ra(1, 1, 0, "full", "full"), Ra(1, 1, 1, "full", "small"),
              Ra(1, 2, 0, "small", "full"), Ra(2, 1, 0, "small", "full"), Noop, Lookup(2), LookupTable(2),
-             MulExt(1, "small", "small"), Reducing(1, "small"), Coset(1, 2, "small")>>
+             MulExt(1, "small", "small"), Reducing(1, "small"), Coset(1, 2, "tiny")>>
 \* P = 5 (GEN 2, ALPHA 3): extension-field gates and joint uniqueness
 Cases5 == <<Expo(1), Expo(2), Expo(3), Arith(2, "tiny", "small"), ArithExt(1, "small", "tiny"),
             MulExt(1, "full", "small"), Ra(2, 1, 0, "full", "full"), Ra(1, 2, 1, "small", "small"),
